@@ -11,6 +11,8 @@ R13.3  closed descriptors are inert: every descriptor-taking entry point (both A
 R13.6  call sequences: every insert/close sequence of up to 4 (thorough 5) steps on a concrete table keeps each descriptor number
        unambiguous (fresh on insertion, unchanged while live, not found after close)
 R13.7  who may release: close/closedir/free of a descriptor's native descriptor, stream or path happen only in the table's close operation
+R13.8  native-number independence: a live descriptor with native number 0 (standard input) or 2 is served exactly like one with native
+       number 10 by every file-like import
 R13.4  single access path: only the table helpers touch wasi.fds
 R13.5  prestat: both calls report the stored path of a slot whose path is non-NULL and EBADF otherwise
 """
@@ -466,6 +468,73 @@ def check_inert(chk, tu, closed_records, only=None, rule='R13.3', floor=80):
     chk.require(n_checked >= floor, 'only %d entry-point/state combinations analysed' % n_checked)
 
 
+def check_native_number_independence(chk, tu):
+    """R13.8: descriptors 0-2 denote the host's standard streams - native descriptors 0, 1, 2.  A native descriptor number is just a
+    number: every file-like import must behave on a live descriptor whose native number is 0 exactly as on one whose native number is
+    10 - same return values, same host calls in the same order, with the native number as the only difference (a guard such as
+    `fd <= 0` or `!fd` treats standard input as closed)"""
+    eps = W.entry_points(tu)
+    n = 0
+    for imp in ('fd_write', 'fd_pwrite', 'fd_read', 'fd_pread', 'fd_seek', 'fd_tell', 'fd_fdstat_get', 'fd_datasync', 'fd_sync', 'fd_filestat_get', 'fd_close'):
+        for gen, f in sorted(eps.get(imp, {}).items()):
+            fname = f['name']
+            params = astdb.fn_params(f)
+            summaries = {}
+            REF = 77
+            for native in (0, REF, 2):
+                def table(native=native):
+                    t = std_table(1)
+                    t.append({'fd': native, 'dir': 0, 'path': 0})
+                    return t
+
+                def mk(it, st):
+                    args = [unk('instance')]
+                    for i, prm in enumerate(params[1:]):
+                        nm = prm.get('name', 'p%d' % i)
+                        if i == 0:
+                            args.append(5)
+                        elif 'Count' in nm or 'count' in nm:
+                            args.append(1)
+                        elif nm == 'whence':
+                            args.append(0)
+                        elif 'lags' in nm or 'ights' in nm:
+                            args.append(0)
+                        else:
+                            args.append(unk(nm, tu.desugar(astdb.qtype(prm))))
+                    return args
+                try:
+                    paths = W.explore_entry(tu, fname, mk, table, max_paths=600, errno_value=5)
+                except pe.PEError as e:
+                    raise AnalysisBroken('%s with native descriptor %d: %s' % (fname, native, e))
+                summ = []
+                for p in paths:
+                    calls = []
+                    for name, args, loc in p.events:
+                        if name.startswith(NATIVE_PREFIX):
+                            calls.append((name, tuple(repr(a) for a in args)))
+                    summ.append((repr(p.ret) if p.aborted is None else 'abort:%s' % p.aborted, tuple(calls)))
+                summaries[native] = summ
+            n += 1
+
+            def renumber(summ, to):
+                sub = lambda t: re.sub(r'\b%d\b' % REF, str(to), t)
+                return sorted((sub(r_), tuple((nm, tuple(sub(x) for x in a)) for nm, a in calls)) for r_, calls in summ)
+            for native in (0, 2):
+                got, want = sorted(summaries[native]), renumber(summaries[REF], native)
+                if got != want:
+                    only0 = [x for x in got if x not in want][:1]
+                    only10 = [x for x in want if x not in got][:1]
+                    chk.fail('R13.8', '%s/%s:native-%d' % (gen, imp, native),
+                             '%s on a live descriptor whose native number is %d behaves differently than on one with another native number: it has %r '
+                             'where the other has %r - descriptor %d of the guest is the host\'s standard %s, a valid open descriptor'
+                             % (imp, native, only0 or 'no such path', only10 or 'no such path', native, 'input' if native == 0 else 'error'),
+                             '%s:native-number' % imp)
+                    break
+            else:
+                chk.ok('R13.8', '%s/%s:native-number-independent' % (gen, imp))
+    chk.require(n >= 16, 'only %d imports compared' % n)
+
+
 def check_prestat(chk, tu):
     eps = W.entry_points(tu)
     for gen in ('preview1', 'unstable'):
@@ -522,6 +591,8 @@ def run(chk):
     closed = closed_state(chk, tu)
     check_inert(chk, tu, closed)
     check_prestat(chk, tu)
+    check_native_number_independence(chk, tu)
+    chk.floor('R13.8', 16)
     chk.sample(dict(rule='R13.2', closed_states=[{k: repr(v) for k, v in c.items()} for c in closed][:4]))
     chk.floor('R13.1', 7)
     chk.floor('R13.2', 2)
